@@ -257,6 +257,24 @@ for _sn, _se in _STR_SRC.items():
         CATALOGUE.append(("ptrs_%s_%s" % (_sn, _pn), _PSRC + T(_pt.replace("%s", _se))))
 
 
+# near-misses of the typing rules: programs the pinned compiler rejects (then they are only counted) but that a
+# relaxed rule would accept — if accepted they must still be sound.
+CATALOGUE += [
+    ("alias_map_index", "type Stock map[str, int]\nst: Stock = map[str, int] { \"apples\": 3 }\nr = st[\"apples\"]\n" + T("r") + "st[\"pears\"] = 4\nst[\"apples\"] += 1\n" + T("st.len()")),
+    ("alias_list_index", "type Li [int...]\nli: Li = [5, 6]\nr = li[1]\n" + T("r") + "li[0] = 9\nli[0] += 1\n" + T("li")),
+    ("alias_str_index", "type Sa str\nsa: Sa = \"héllo\"\nr = sa[1]\n" + T("r") + T("sa.len()")),
+    ("alias_bool_condition", "type Fl bool\nfl: Fl = true\nif fl {\n q = 1\n}\n" + T("!fl")),
+    ("alias_fn_call", "type Fa fn(int) -> int\nfa: Fa = fn(a: int) -> int {\n return a + 1\n}\n" + T("fa(2)")),
+    ("alias_class_field", "class Ka {\n f: int\n constructor(self) {\n  self.f = 2\n }\n}\ntype Ak Ka\nak: Ak = Ka()\n" + T("ak.f")),
+    ("while_true_break_then_missing_return", "nm = fn(a: int, b: int) -> int {\n i = a\n while true {\n  if i > b {\n   break\n  }\n  return i\n }\n}\n" + T("nm(1, 5)") + "x = nm(9, 5)\n" + T("x")),
+    ("while_cond_return_missing_after", "nm = fn(a: int) -> int {\n while a > 100 {\n  return 1\n }\n}\nx = nm(1)\n" + T("x")),
+    ("from_loop_return_missing_after", "nm = fn(a: int) -> int {\n from 0 to a {\n  return 1\n }\n}\nx = nm(0)\n" + T("x")),
+    ("else_if_without_else_missing_return", "nm = fn(a: int) -> int {\n if a > 1 {\n  return 1\n } else if a > 0 {\n  return 2\n }\n}\nx = nm(0)\n" + T("x")),
+    ("self_param_other_class_instance", "class Sh {\n s: int\n constructor(self, s: int) {\n  self.s = s\n }\n fn same(self, o: Self) -> bool {\n  return self.s == o.s\n }\n}\nclass Cv {\n w: int\n constructor(self) {\n  self.w = 1\n }\n fn go(self) -> bool {\n  q = Sh(3)\n  return q.same(self)\n }\n}\nc = Cv()\n" + T("c.go()")),
+    ("class_param_other_class_instance", "class Sh {\n s: int\n constructor(self, s: int) {\n  self.s = s\n }\n}\nclass Cv {\n w: int\n constructor(self) {\n  self.w = 1\n }\n}\ng = fn(o: Sh) -> int {\n return o.s\n}\n" + T("g(Cv())")),
+]
+
+
 def run_case(item):
     kind, arg = item
     if kind == "rand":
@@ -268,7 +286,11 @@ def run_case(item):
     else:
         name, body = arg
         text = 'print "@@RUN@@"\n' + body
-        aliases = {"Al": tgen.parse_type(re.search(r"type Al (.*)", body).group(1))} if "type Al " in body else {}
+        aliases = {}
+        for m_ in re.finditer(r"^type (\w+) (.*)$", body, re.M):
+            t_ = tgen.parse_type(m_.group(2))
+            if t_:
+                aliases[m_.group(1)] = t_
         classes = set(re.findall(r"class (\w+)", body))
         feats = []
     r, _, _ = core.run_program({"main.ms": text}, typed=True, cpu=10)
